@@ -13,14 +13,14 @@ package keeper
 // the feed is queued under state a and not under state b
 //@ define mirrors(n, a, b) = has(fstate, n, a) && !has(fstate, n, b)
 
-//@ func Keeper.dequeueAndEnqueue
+//@ func Keeper.dequeueAndEnqueue(ctx, feedName, dequeueState, enqueueState)
 //@   property C17
 //@   modifies fstate
 //@   ensures moved: fstate == set(del(old(fstate), feedName, dequeueState), feedName, enqueueState, feedName)
 //@ end
 
 // Only the feed's creator can start, pause or edit it; the state queue follows the request context (C17).
-//@ func Keeper.StartFeed
+//@ func Keeper.StartFeed(ctx, msg)
 //@   property C17
 //@   returns err
 //@   modifies fstate, bal, supply
@@ -30,7 +30,7 @@ package keeper
 //@   ensures rejected:     err != nil ==> fstate == old(fstate)
 //@ end
 
-//@ func Keeper.PauseFeed
+//@ func Keeper.PauseFeed(ctx, msg)
 //@   property C17
 //@   returns err
 //@   modifies fstate, bal, supply
@@ -41,7 +41,7 @@ package keeper
 //@ end
 
 // The service module reports a state change of the request context: the feed moves to the queue of the new state.
-//@ func Keeper.HandlerStateChanged
+//@ func Keeper.HandlerStateChanged(ctx, requestContextID, _)
 //@   property C17
 //@   requires has(byCtx, requestContextID) && has(feeds, get(byCtx, requestContextID))
 //@   let name = get(feeds, get(byCtx, requestContextID)).FeedName
@@ -52,7 +52,7 @@ package keeper
 
 // The service module reports the outcome of a batch: a failed batch (no output, or reported with an error such as a
 // missed response threshold) appends nothing; otherwise at most the feed bound to that request context gets a value.
-//@ func Keeper.HandlerResponse
+//@ func Keeper.HandlerResponse(ctx, requestContextID, responseOutput, err)
 //@   property C17
 //@   requires len(responseOutput) == 0 ==> err != nil
 //@   requires forall n:Str :: has(feeds, n) ==> get(feeds, n).LatestHistory >= 1 && get(feeds, n).LatestHistory <= 100
@@ -76,7 +76,7 @@ package keeper
 //@ axiom cntNonNeg(F, n)
 //@   ensures CNT(F, n) >= 0
 
-//@ func Keeper.getFeedValuesCnt
+//@ func Keeper.getFeedValuesCnt(ctx, feedName)
 //@   property C17
 //@   returns i
 //@   invariant #1 pos: 0 <= it_idx && it_idx <= it_n && i == it_idx
@@ -84,7 +84,7 @@ package keeper
 //@   ensures counts: i == CNT(values, feedName)
 //@ end
 
-//@ func Keeper.deleteOldestFeedValue
+//@ func Keeper.deleteOldestFeedValue(ctx, feedName, delta)
 //@   property C17
 //@   uses cntDel(values, feedName, 0)
 //@   uses cntNonNeg(values, feedName)
@@ -98,7 +98,7 @@ package keeper
 //@   ensures others:  forall n:Str :: forall c:Int :: n != feedName ==> has(values, n, c) == old(has(values, n, c)) && get(values, n, c) == old(get(values, n, c))
 //@ end
 
-//@ func Keeper.EditFeed
+//@ func Keeper.EditFeed(ctx, msg)
 //@   property C17
 //@   returns err
 //@   requires msg.LatestHistory <= 100
@@ -113,7 +113,7 @@ package keeper
 //@ end
 
 // A completed batch stores one value for the feed, stamped with the block time, under the batch counter (C17).
-//@ func Keeper.SetFeedValue
+//@ func Keeper.SetFeedValue(ctx, feedName, batchCounter, latestHistory, value)
 //@   property C17
 //@   requires latestHistory >= 1 && latestHistory <= 100
 //@   uses cntSet(values, feedName, 0, value)
